@@ -7,7 +7,7 @@ open MtxVerif.C06 (commonPath extMp4)
 /-- **the one switch**: does the handler convert the parsed instant to local time before `Encode`?
 `false` = code as written (finding F-C31); set to `true` when the fix `start = start.Local()` is in /repo:
 the model then describes the fixed behaviour only and `offsetMismatch` verdicts become FAILs. -/
-def handlerConvertsToLocal : Bool := false
+def handlerConvertsToLocal : Bool := true
 
 def cwd : Bytes := strBytes "/tmp/vc31t"
 
@@ -67,9 +67,9 @@ def step (d : D) (op impl : String) : D × DrvOut :=
       let rp := C06.abs cwd (substPath fmt name ++ extMp4)
       let toks := tokenize rp
       let hasF := hasKind .f toks
-      let found := files.filterMap fun (rel, _) =>
-        if C30.inWalk (commonPath rp) (absOf rel) then
-          (decode toks (absOf rel)).map fun m => (rel, calLookup cal (decodedStart m.caps))
+      let found : List (Bytes × Option Int) := files.filterMap fun x =>
+        if C30.inWalk (commonPath rp) (absOf x.1) then
+          (decode toks (absOf x.1)).map fun m => (x.1, calLookup cal (decodedStart m.caps))
         else none
       let model :=
         if found.isEmpty then "none"
@@ -78,11 +78,11 @@ def step (d : D) (op impl : String) : D × DrvOut :=
       let spec :=
         match parseFiles impl with
         | some listed =>
-          match files.find? (fun (rel, _) => !listed.any (·.1 == rel)) with
-          | some (rel, _) => s!"FAIL a recorder-written segment is not listed: {Hex.encode rel}"
+          match files.find? (fun x => !listed.any (·.1 == x.1)) with
+          | some x => s!"FAIL a recorder-written segment is not listed: {Hex.encode x.1}"
           | none =>
-            match listed.find? (fun (rel, us) => !files.any fun (r2, s2) => r2 == rel && cut hasF s2 == us) with
-            | some (rel, _) => s!"FAIL listing reports another start instant than the one the segment was written for: {Hex.encode rel}"
+            match listed.find? (fun y => !files.any fun x => x.1 == y.1 && cut hasF x.2 == y.2) with
+            | some y => s!"FAIL listing reports another start instant than the one the segment was written for: {Hex.encode y.1}"
             | none => "ok"
         | none => "FAIL unparsable implementation answer"
       (d, { model, spec })
@@ -93,11 +93,11 @@ def step (d : D) (op impl : String) : D × DrvOut :=
       let toks := tokenize (substPath fmt name)
       let hasF := hasKind .f toks
       let target := deleteFile handlerConvertsToLocal cwd fmt name Fo Fl
-      let hit := match target with
-        | some t => files.find? fun (rel, _) => absOf rel == t
+      let hit : Option (Bytes × Int) := match target with
+        | some t => files.find? fun x => absOf x.1 == t
         | none => none
       let model := match hit with
-        | some (rel, _) => s!"200 {Hex.encode rel}"
+        | some x => s!"200 {Hex.encode x.1}"
         | none => "400 -"
       let spec :=
         match words impl with
@@ -105,9 +105,9 @@ def step (d : D) (op impl : String) : D × DrvOut :=
           match (if gone == "-" then some [] else (gone.splitOn ",").mapM Hex.decode) with
           | some gone =>
             -- the segment(s) whose start instant equals the requested instant (to the name's precision)
-            let wrong := gone.filter fun rel => !files.any fun (r2, s2) => r2 == rel && cut hasF s2 == cut hasF tg
-            let exact := files.filter fun (_, s2) => s2 == tg
-            let missed := exact.filter fun (rel, _) => !gone.contains rel
+            let wrong := gone.filter fun rel => !files.any fun x => x.1 == rel && cut hasF x.2 == cut hasF tg
+            let exact := files.filter fun x => x.2 == tg
+            let missed := exact.filter fun x => !gone.contains x.1
             let verdict (msg : String) : String :=
               if !handlerConvertsToLocal && offsetMismatch toks Fo Fl then "KNOWN offsetMismatch " ++ msg else "FAIL " ++ msg
             if !wrong.isEmpty then verdict "a segment with another start instant was deleted"
